@@ -49,6 +49,11 @@ pub enum Mutation {
     /// several edits of one footer at once: version bytes (which: 0 footer, 1 hash section, 2 boundary section) and
     /// u32 fields (same field list as SetFooterU32; `delta` adds to the stored value instead of replacing it)
     FooterEdit { versions: Vec<(u8, u8)>, u32s: Vec<(u32, u32, bool)> },
+    /// a re-assembled footer whose three chunk counts differ from each other: the hash table holds n+hashes entries,
+    /// the boundary section's two tables n+boundaries entries each, the trailing num_chunks field says n+num_chunks;
+    /// every table is as long as its own count says, and the section offsets and the info length are recomputed, so
+    /// that only the cross-checks between the counts can reject it
+    FooterCraft { hashes: i32, boundaries: i32, num_chunks: i32 },
 }
 
 #[derive(Clone, Debug, Serialize, Deserialize, PartialEq)]
@@ -453,6 +458,46 @@ fn apply_mutation(b: &Built, m: &Mutation) -> (Vec<u8>, H) {
                 }
             }
         },
+        Mutation::FooterCraft { hashes, boundaries, num_chunks } => {
+            let n = b.chunks.len() as i64;
+            let fs = section_len;
+            if parsed.is_some() && bytes.len() >= fs + 52 + 32 * n as usize + 12 + 8 * n as usize + 28 + 4 {
+                let f = bytes[fs..bytes.len() - 4].to_vec();
+                let nu = n as usize;
+                let nh = (n + *hashes as i64).max(0) as usize;
+                let nb = (n + *boundaries as i64).max(0) as usize;
+                let nc = (n + *num_chunks as i64).max(0) as u32;
+                let rd = |at: usize| u32::from_le_bytes(f[at..at + 4].try_into().unwrap());
+                let mut out: Vec<u8> = Vec::new();
+                out.extend_from_slice(&f[0..48]);
+                out.extend_from_slice(&(nh as u32).to_le_bytes());
+                for k in 0..nh {
+                    let src = k.min(nu.saturating_sub(1));
+                    out.extend_from_slice(&f[52 + 32 * src..52 + 32 * src + 32]);
+                }
+                let bs = 52 + 32 * nu;
+                out.extend_from_slice(&f[bs..bs + 8]);
+                out.extend_from_slice(&(nb as u32).to_le_bytes());
+                for table in 0..2 {
+                    let base = bs + 12 + 4 * nu * table;
+                    for k in 0..nb {
+                        let v = if k < nu { rd(base + 4 * k) } else { rd(base + 4 * (nu - 1)).wrapping_add(8 * (k + 1 - nu) as u32) };
+                        out.extend_from_slice(&v.to_le_bytes());
+                    }
+                }
+                let tail = bs + 12 + 8 * nu;
+                let dh = 32 * (nh as i64 - n);
+                let db = 8 * (nb as i64 - n);
+                out.extend_from_slice(&nc.to_le_bytes());
+                out.extend_from_slice(&((rd(tail + 4) as i64 + dh + db) as u32).to_le_bytes());
+                out.extend_from_slice(&((rd(tail + 8) as i64 + db) as u32).to_le_bytes());
+                out.extend_from_slice(&f[tail + 12..]);
+                bytes.truncate(fs);
+                let info_len = out.len() as u32;
+                bytes.extend_from_slice(&out);
+                bytes.extend_from_slice(&info_len.to_le_bytes());
+            }
+        },
         Mutation::StripFooter => bytes.truncate(section_len),
         Mutation::Append { n } => {
             let mut r = Rng::new(*n as u64);
@@ -680,6 +725,17 @@ fn run_c08(p: &Plan, rep: &mut RunReport) {
             }
         }
         rep.count("enumerated_version_field_pairs", 6 * n_fields as u64 * 3);
+        // re-assembled footers whose three chunk counts disagree (tables sized to their own counts, offsets recomputed)
+        for h in -1..=1 {
+            for bd in -1..=1 {
+                for nc in -1..=1 {
+                    if (h, bd, nc) != (0, 0, 0) {
+                        judge(rep, p, &b, &Mutation::FooterCraft { hashes: h, boundaries: bd, num_chunks: nc }, &format!("footer re-assembled with counts n{h:+} / n{bd:+} / n{nc:+}"));
+                    }
+                }
+            }
+        }
+        rep.count("enumerated_count_disagreements", 26);
         rep.count("enumerated_objects", 1);
         rep.count("enumerated_offsets", offs.len() as u64 + b.bytes.len() as u64);
     }
@@ -726,7 +782,13 @@ fn gen(seed: u64, run: u64, focus: &str, tier: Tier) -> Plan {
         content_mix: rng.below(4) as u32,
         scheme: if rng.chance(2, 3) { 0 } else { rng.below(4) as u32 },
     };
-    let mutation = match rng.below(14) {
+    let mutation = match rng.below(15) {
+        14 => loop {
+            let m = (rng.range(0, 3) as i32 - 1, rng.range(0, 3) as i32 - 1, rng.range(0, 3) as i32 - 1);
+            if m != (0, 0, 0) {
+                break Mutation::FooterCraft { hashes: m.0, boundaries: m.1, num_chunks: m.2 };
+            }
+        },
         12 | 13 => {
             let mut versions = Vec::new();
             for _ in 0..rng.range(1, 2) {
@@ -834,7 +896,7 @@ impl Engine for XorbEngine {
         if focus == "C07" {
             "Each run: a seeded chunk list (1..600 chunks, one run in 150 (quick) or 50 (thorough) 600..8192 small chunks incl. 1151/1152/1153 and the 8192 maximum; lengths 1 B..128 KiB incl. every residue mod 4, random / compressible / float-like content) is serialised by the real code under None / LZ4 / BG4+LZ4 / automatic, parsed by the independent parser, and read back through a seekable reader with seeded short reads (whole object, every chunk range up to 12 chunks, sampled beyond) and through the three chunk decoders (sync short reads; tokio AsyncRead with short reads and Pending; Stream<Bytes> cut at seeded offsets incl. empty fragments). Non-trivial: a compressed scheme was actually stored and a reader delivered fragments. Distinct: (spec seed, scheme, reader seed, reader mode, chunk count).".into()
         } else {
-            "Each run: a valid xorb (with its own hash and with another hash) plus one seeded mutant (byte flip, truncation, dropped/duplicated/swapped chunks with or without a rebuilt footer, overwritten u32 footer fields incl. counts and section offsets, combined footer edits (section-version bytes together with u32 fields), stripped footer, appended bytes, random string); one run in 40 additionally enumerates, for an object of 1-4 small chunks, every single-bit flip and the all-bits flip of every chunk-header and non-hash footer byte (3 masks for hash bytes), truncation at every offset, and every pair (one of the three version bytes set to 0 or 2) x (one u32 footer field zeroed, incremented or saturated). Both validators and the footer parser run under catch_unwind with a counting allocator; every acceptance is re-verified independently. Non-trivial: the mutant differs from the original and is at least 8 bytes long (parsing gets past the ident check). Distinct: (spec seed, mutation, enumerate).".into()
+            "Each run: a valid xorb (with its own hash and with another hash) plus one seeded mutant (byte flip, truncation, dropped/duplicated/swapped chunks with or without a rebuilt footer, overwritten u32 footer fields incl. counts and section offsets, combined footer edits (section-version bytes together with u32 fields), re-assembled footers whose three chunk counts disagree while every table and offset is consistent with its own count, stripped footer, appended bytes, random string); one run in 40 additionally enumerates, for an object of 1-4 small chunks, every single-bit flip and the all-bits flip of every chunk-header and non-hash footer byte (3 masks for hash bytes), truncation at every offset, every pair (one of the three version bytes set to 0 or 2) x (one u32 footer field zeroed, incremented or saturated), and all 26 re-assembled footers with count deltas in {-1,0,+1}^3. Both validators and the footer parser run under catch_unwind with a counting allocator; every acceptance is re-verified independently. Non-trivial: the mutant differs from the original and is at least 8 bytes long (parsing gets past the ident check). Distinct: (spec seed, mutation, enumerate).".into()
         }
     }
     fn real_vs_stub(&self) -> Value {
